@@ -155,7 +155,8 @@ def run(ctx):
                 c.ps(0, 0.3); c.loss(0, 0.2); c.barrier(); c.mode_swaps({})
                 ctx.bucket("one_mode_circuit")
             else:
-                c = b.tree(int(rng.integers(1, 8)), int(rng.choice([0, 1, 1, 2])), log, max_children=3, steps=(1, 8),
+                n_disp = int(rng.integers(1, 8)) if rng.random() < 0.9 else int(rng.integers(8, 14))
+                c = b.tree(n_disp, int(rng.choice([0, 1, 1, 2])), log, max_children=3, steps=(1, 8),
                            gate_p=0.25, direct_heralds_p=0.25)
                 for p in b.params:
                     if rng.random() < 0.5:
